@@ -126,12 +126,41 @@ def prefix_composition(repo, res):
         norm(canon_node(ex.expand_node(r.value))) in (norm(tup), f"{lut}[{sym}]") for r in rets
     ) and len(rets) == 2
     res.check(ok, "returns", fn.where(), "the function returns either the direct table hit or exactly the derived row it stored", rid=r2)
+    # the derived rows are remembered in the table: every edit of a base row must drop them, or Unit('k'+symbol) keeps
+    # prefix x the *old* base scale (same analysis as C12-R2, reported here for the clause "prefix times base scale")
+    from rules import c12
+
+    tmp = Result("C12")
+    c12.invalidation(repo, tmp)
+    bad_keys = {f.key.split("/", 1)[1]: f for f in tmp.findings}
+    n = 0
+    for k in tmp.rules["C12-R2"]["keys"]:
+        if k.endswith(":derived-rows") or k == "_forget_prefixed":
+            n += 1
+            if k in bad_keys:
+                f = bad_keys[k]
+                res.bad(f"edit:{k}", f.where, f.msg, f.expected, f.found, rid=r2)
+            else:
+                res.ok(f"edit:{k}", r2)
+    if n < 4:
+        raise AnalysisError("C12-R2 no longer reports the derived-row obligations C02-R2 relies on")
 
 
 def _unit_ctor_binding(fn, call, repo):
     new = repo.mod(UO).func("Unit.__new__")
     b = bind_call(call, new, skip_self=True)
     return b
+
+
+def _strip_float_casts(text):
+    class T(ast.NodeTransformer):
+        def visit_Call(self, n):
+            self.generic_visit(n)
+            if isinstance(n.func, ast.Name) and n.func.id == "float" and len(n.args) == 1 and not n.keywords:
+                return n.args[0]
+            return n
+
+    return norm(T().visit(ast.parse(text, mode="eval").body))
 
 
 def homomorphism(repo, res):
@@ -216,7 +245,8 @@ def homomorphism(repo, res):
         bb = exp.expand(rets[0].value.elts[1])
         rec = f"_get_unit_data_from_expr({e}.args[0], {lut})"
         power = f"{e}.args[1]"
-        ok = a == f"float({rec}[0] ** {power})" and bb == f"{rec}[1] ** {power}"
+        # float(x) only changes the representation of a number, never which number it is: compare without casts
+        ok = _strip_float_casts(a) == f"{rec}[0] ** {power}" and _strip_float_casts(bb) == f"{rec}[1] ** {power}"
         found = f"({a}, {bb})"
     res.check(ok, "walk:Pow", fn.where(pw), "Pow arm: scale and dimension must be raised to the same exponent of the same sub-expression", "(float(rec[0] ** e.args[1]), rec[1] ** e.args[1])", found, rid=r3)
     # Mul arm
@@ -350,4 +380,6 @@ MUTANTS = [
     Mutant("twin-mul-commute", UO, "Unit.__mul__", "self.base_value * u.base_value", "u.base_value * self.base_value", (), benign=True),
     Mutant("twin-rename-ratio", UO, "_get_conversion_factor", "ratio", "rr", (), count=4, benign=True),
     Mutant("twin-row-float-spelling", LUT, None, '("bar", (1.0e5,', '("bar", (100000.0,', (), benign=True),
+    Mutant("modify-purges-derived-late", REG, "UnitRegistry.modify", "        self._forget_prefixed(symbol)\n        if hasattr(base_value, \"in_base\"):", "        if hasattr(base_value, \"in_base\"):", ("C02-R2",), more=[(REG, "UnitRegistry.modify", "        # any cached unit string (prefixed or compound) may mention the symbol\n", "        self._forget_prefixed(symbol)\n", 1)]),
+    Mutant("walk-float-exponent", UO, "_get_unit_data_from_expr", "conv = float(unit_data[0] ** power)", "conv = float(unit_data[0] ** float(power))", (), benign=True),
 ]
